@@ -357,3 +357,58 @@ def rounded_rect_radii_are_clamped(c):
     c.ensures('four-corner-arcs', len(arcs) == 4)
     for k, a in enumerate(arcs):
         c.ensures('corner-%d-uses-rx=width/2' % k, ops.eq(ops.re(c.get(a, 'radius')), w / 2))
+
+
+# ---------------------------------------------------------------- flattened_paths_from_group
+GROUP_TREES = {
+    # (shape, path of child indices from the root to the requested group)
+    'deep-under-target': (('g', 'p', ('g', 'p', ('g', 'p', ('g', 'p')))), [1]),
+    'target-below-a-sibling': (('g', ('g', 'p'), ('g', ('g', 'p', ('g', 'p')), 'p')), [1, 0]),
+    'target-is-root': (('g', 'p', ('g', 'p')), []),
+}
+
+
+def _kids(c, e):
+    return list(c.get(e, 'children')) if c.mode == 'sym' else list(e)
+
+
+def _descend(c, root, route):
+    e = root
+    for k in route:
+        e = _kids(c, e)[k]
+    return e
+
+
+def _is_under(c, elem, anc):
+    """is `elem` a (possibly indirect) child of element `anc` (or anc itself)?"""
+    if elem is anc:
+        return True
+    return any(_is_under(c, elem, ch) for ch in _kids(c, anc))
+
+
+@contract('C17', 'document.flattened_paths_from_group',
+          params=[{'tree': t, 'recursive': r, '_no_bounded': True} for t in GROUP_TREES for r in (True, False)], level='per-shape', budget=120)
+def flattened_paths_from_group_returns_the_leaves_below_the_group(c, tree, recursive):
+    """exactly the path leaves below the requested group (all depths when recursive, its direct
+    children otherwise), each mapped by the product of ALL its ancestors' transforms from the
+    root down, outermost first"""
+    shape, route = GROUP_TREES[tree]
+    root, leaves = _tree(c, shape)
+    for (e, ab, chain) in leaves:
+        c.assume(_non_identity(c, _product(chain)))
+    target = _descend(c, root, route)
+    res = list(c.items(c.call('document.flattened_paths_from_group', target, root, recursive)))
+    if recursive:
+        want = [lf for lf in leaves if _is_under(c, lf[0], target)]
+    else:
+        want = [lf for lf in leaves if any(lf[0] is ch for ch in _kids(c, target))]
+    c.ensures('one-path-per-requested-leaf-and-no-other', len(res) == len(want) and all(any(c.get(p, 'element') is lf[0] for lf in want) for p in res))
+    for k, (e, (a, b), chain) in enumerate(want):
+        mine = [p for p in res if c.get(p, 'element') is e]
+        c.ensures('leaf-%d-returned-exactly-once' % k, len(mine) == 1)
+        if len(mine) != 1:
+            continue
+        M = _product(chain)
+        segs = list(c.items(mine[0]))
+        c.ensures('leaf-%d-geometry-mapped-by-all-ancestors-from-the-root' % k, len(segs) == 1 and
+                  ops.And(ops.eq(c.get(segs[0], 'start'), affine(M, a)), ops.eq(c.get(segs[0], 'end'), affine(M, b))))
